@@ -228,7 +228,8 @@ pub fn statements(text: &str, root: N) -> Vec<Value> {
                 if leaf_kind(kids[0]) == Some(TokenKind::AnnotationLine) {
                     an.push(json!({"w": "line", "t": kids[0].as_str()}));
                 }
-                out.push(with_anns(node("decl", d.ident().as_ref(), "", np, a), an));
+                let q = if d.ident().is_reference() { "@" } else { "" };
+                out.push(with_anns(node("decl", d.ident().as_ref(), q, np, a), an));
             }
             Some(SyntaxKind::Resource) => out.push(node("res", "", "", 0, vec![expr(text, kids[1])])),
             k => out.push(node("unexpected", &format!("{k:?}"), "", 0, vec![])),
